@@ -197,10 +197,10 @@ Example C16_date_text_nonvacuous :
   date_parse (date_iso 2021 2 29) = None.
 Proof. vm_compute. repeat split. Qed.
 
-(* ---------- and for datetimes: x.isoformat() of every datetime (naive, or aware with an offset of whole minutes)
+(* ---------- and for datetimes: x.isoformat() of every datetime (naive, or aware with an offset of whole seconds)
    reads back as the datetime ----------
    [datetime_iso] is datetime.isoformat (date, 'T', HH:MM:SS, '.ffffff' when the microsecond is not 0, '+HH:MM' /
-   '-HH:MM' when aware), [datetime_parse] is datetime.fromisoformat restricted to those shapes, [dt_us] the model's
+   '-HH:MM' when aware, with ':SS' when the offset is not a whole number of minutes), [datetime_parse] is datetime.fromisoformat restricted to those shapes, [dt_us] the model's
    wall-clock microsecond count.  Compared with CPython on every run; premise as before. *)
 Theorem C16_datetime_text_roundtrip :
   forall y m d H M Sc us tz,
@@ -227,7 +227,8 @@ Qed.
 Print Assumptions C16_datetime_roundtrip.
 
 Example C16_datetime_text_nonvacuous :
-  valid_time 3 4 5 7 = true /\ valid_off (Some (-19800)) = true /\ valid_off (Some 61) = false /\
+  valid_time 3 4 5 7 = true /\ valid_off (Some (-19800)) = true /\ valid_off (Some 86400) = false /\
+  off_iso (Some 3661) = [43; 48; 49; 58; 48; 49; 58; 48; 49]%Z /\ parse_off (off_iso (Some (-3661))) = Some (Some (-3661)%Z) /\
   datetime_iso 2020 1 2 3 4 5 7 (Some (-19800))
   = [50; 48; 50; 48; 45; 48; 49; 45; 48; 50; 84; 48; 51; 58; 48; 52; 58; 48; 53; 46; 48; 48; 48; 48; 48; 55; 45; 48; 53; 58; 51; 48]%Z /\
   dt_us 2020 1 1 0 0 0 0 = 63713433600000000%Z.
